@@ -1458,6 +1458,37 @@ func (x *Exec) specBuiltin(st *State, env *Env, name string, args []Expr) (Value
 			fail("samecell needs slices")
 		}
 		return mkBool(a.cell != nil && a.cell == b.cell), true
+	case "maphas", "mapval":
+		mv, ok := x.eval(st, env, args[0]).(*MapV)
+		if !ok {
+			fail("%s needs a map", name)
+		}
+		k := x.eval(st, env, args[1])
+		if mv.cell == nil {
+			r, concrete := keyRepr(k)
+			if !concrete {
+				if len(mv.keys) == 0 {
+					if name == "maphas" {
+						return tFalse, true
+					}
+					return zeroValue(mv.typ.Underlying().(*types.Map).Elem()), true
+				}
+				fail("%s: symbolic key on a concrete map", name)
+			}
+			e, found := mv.entries[r]
+			if name == "maphas" {
+				return mkBool(found), true
+			}
+			if found {
+				return e[1], true
+			}
+			return zeroValue(mv.typ.Underlying().(*types.Map).Elem()), true
+		}
+		val, has := x.symMapLookup(st, mv, k)
+		if name == "maphas" {
+			return has, true
+		}
+		return val, true
 	case "isnil":
 		v := x.eval(st, env, args[0])
 		return x.isNil(v), true
